@@ -203,7 +203,8 @@ def gen_case(rng, tier):
                     alt[key] = rng.choice(("f64", "i64", "list", "ilist"))
             op["alt_rep"] = alt
         ops.append(op)
-    return {"inputs": {"fixtures": fx, "clients": K}, "ops": ops, "config": {}}
+    return {"inputs": {"fixtures": fx, "clients": K}, "ops": ops,
+            "config": {"interleave": rng.choice(("scheduler", "scheduler", "as-listed"))}}
 
 
 # ---------------------------------------------------------------- reference (pristine fork)
@@ -295,7 +296,8 @@ def run_case(case, sched):
     stats = {"ok": 0, "raised": 0, "skipped": 0, "alt_rep_compared": 0, "reference_forks": 0, "reference_cache_hits": 0}
     stray = []
     try:
-        for opi, op in enumerate(case["ops"]):
+        from sim.sched import interleave
+        for opi, op in interleave(sched, case["ops"], "client", case["config"].get("interleave", "as-listed")):
             spec = op.get("spec")
             if not isinstance(spec, dict) or "fn" not in spec:
                 raise InvalidCase("spec")
